@@ -8,6 +8,7 @@ CONSTANTS
   Fanout = "locked"
   Slurp = "early"
   Now0 = 10
+  Batch = "alert"
   Scenario = "subscribe"
 INVARIANTS InOrder QuiescentEnd
 CHECK_DEADLOCK FALSE
